@@ -756,7 +756,10 @@ def compiled_regex(ctx: Ctx, f_or_mod, cdef: Optional[ast.AST]):  # type: ignore
     if not (isinstance(cdef, ast.Call) and (dotted(cdef.func) or "").split(".")[-1] == "compile" and cdef.args):
         return None
     mod = getattr(f_or_mod, "module", f_or_mod)
-    pat = ctx.prog.const_str(cdef.args[0], mod, f_or_mod if hasattr(f_or_mod, "module") else None)
+    v_ = module_const_value(ctx, mod, cdef.args[0])  # also a pattern assembled from named pieces (`"...{%d}" % _HEX_DIGITS`)
+    pat = v_ if isinstance(v_, str) else None
+    if pat is None:
+        pat = ctx.prog.const_str(cdef.args[0], mod, f_or_mod if hasattr(f_or_mod, "module") else None)
     if pat is None and isinstance(cdef.args[0], ast.Constant) and isinstance(cdef.args[0].value, str):
         pat = cdef.args[0].value
     fl = regex_flags(cdef.args[1] if len(cdef.args) > 1 else kwarg(cdef, "flags"))
@@ -1965,3 +1968,264 @@ def _timedelta_seconds(ctx: Ctx, mod, e: ast.AST, env: Dict[str, object], depth:
             tot += float(v) * _TD_UNITS[k.arg]
         return tot
     return None
+
+
+# ------------------------------------------------------------- numbers are compared, not truth-tested
+_NUM_NAMES = {"int", "float"}
+FALSY_ZERO_EXCEPTIONS = {
+    ("datashard.file_manager.FileManager.create_manifest_file", "snapshot_id"):
+        "snapshot ids are random 63-bit numbers drawn by the transaction; the `or` only supplies an id when the caller gave none",
+}
+
+
+def _ann_kind(ctx: Ctx, ann: Optional[ast.AST]):  # type: ignore[no-untyped-def]
+    """('num',) for int / float / Optional[...] of those; ('tuple', [kinds]) for Tuple[...]; ('rec', ClassInfo) for a NamedTuple /
+    dataclass of the package; None otherwise (strings, Any, unknown)."""
+    if ann is None:
+        return None
+    if isinstance(ann, ast.Constant) and isinstance(ann.value, str):
+        try:
+            ann = ast.parse(ann.value, mode="eval").body
+        except SyntaxError:
+            return None
+    if isinstance(ann, ast.BinOp) and isinstance(ann.op, ast.BitOr):  # X | None
+        sides = [x for x in (ann.left, ann.right) if not (isinstance(x, ast.Constant) and x.value is None)]
+        return _ann_kind(ctx, sides[0]) if len(sides) == 1 else None
+    if isinstance(ann, ast.Subscript):
+        head = (dotted(ann.value) or "").split(".")[-1]
+        if head == "Optional":
+            return _ann_kind(ctx, ann.slice)
+        if head in ("Tuple", "tuple") and isinstance(ann.slice, ast.Tuple):
+            return ("tuple", [_ann_kind(ctx, x) for x in ann.slice.elts])
+        return None
+    d = (dotted(ann) or "").split(".")[-1]
+    if d in _NUM_NAMES:
+        return ("num",)
+    ci = next((c for c in ctx.prog.classes.values() if c.name == d), None) if d else None
+    if ci is not None:
+        flds = [(st.target.id, st.annotation) for st in ci.node.body if isinstance(st, ast.AnnAssign) and isinstance(st.target, ast.Name)]
+        if flds and (ci.is_dataclass or any(b.rsplit(".", 1)[-1] == "NamedTuple" for b in ci.base_names)):
+            return ("rec", ci, flds)
+    return None
+
+
+def _expr_kind(ctx: Ctx, f: FunctionInfo, e: Optional[ast.AST], at: int, depth: int = 0):  # type: ignore[no-untyped-def]
+    """The annotation-derived kind of an expression (see _ann_kind), or ('none',) for the constant None."""
+    if e is None or depth > 6:
+        return None
+    if isinstance(e, ast.Constant):
+        if e.value is None:
+            return ("none",)
+        return ("num",) if isinstance(e.value, (int, float)) and not isinstance(e.value, bool) else None
+    if isinstance(e, ast.Tuple):
+        return ("tuple", [_expr_kind(ctx, f, x, at, depth + 1) for x in e.elts])
+    if isinstance(e, ast.BoolOp) and isinstance(e.op, ast.Or):
+        ks = [_expr_kind(ctx, f, x, at, depth + 1) for x in e.values]
+        return _join_kinds(ks)
+    if isinstance(e, ast.IfExp):
+        return _join_kinds([_expr_kind(ctx, f, e.body, at, depth + 1), _expr_kind(ctx, f, e.orelse, at, depth + 1)])
+    if isinstance(e, ast.Call):
+        if isinstance(e.func, ast.Name) and e.func.id in _NUM_NAMES:
+            return ("num",)
+        try:
+            cal = ctx.prog.resolve_call(e, f)
+        except Exception:
+            return None
+        if cal.kind == "func" and cal.funcs and not isinstance(cal.funcs[0].node, ast.Lambda):
+            ks = [_ann_kind(ctx, getattr(t.node, "returns", None)) for t in cal.funcs]
+            return ks[0] if all(k == ks[0] or (k and ks[0] and k[0] == ks[0][0]) for k in ks) else None
+        if cal.kind == "ctor" and cal.cls is not None:
+            return _ann_kind(ctx, ast.Name(id=cal.cls.name, ctx=ast.Load()))
+        return None
+    if isinstance(e, ast.Attribute):
+        base = _expr_kind(ctx, f, e.value, at, depth + 1)
+        if base and base[0] == "rec":
+            ann = next((a for n_, a in base[2] if n_ == e.attr), None)
+            return _ann_kind(ctx, ann)
+        return None
+    if isinstance(e, ast.Subscript) and isinstance(e.slice, ast.Constant) and isinstance(e.slice.value, int):
+        base = _expr_kind(ctx, f, e.value, at, depth + 1)
+        if base and base[0] == "tuple" and 0 <= e.slice.value < len(base[1]):
+            return base[1][e.slice.value]
+        if base and base[0] == "rec" and 0 <= e.slice.value < len(base[2]):
+            return _ann_kind(ctx, base[2][e.slice.value][1])
+        return None
+    if isinstance(e, ast.Name):
+        g = ctx.cfg(f)
+        defs = ctx.rd(f).reaching(at, e.id)
+        if not defs:
+            c = f.module.consts.get(e.id)
+            return _expr_kind(ctx, f, c, at, depth + 1) if c is not None else None
+        ks = []
+        for d in defs:
+            if d == g.entry:
+                par = next((p_ for p_ in f.params if p_.name == e.id), None)
+                ks.append(_ann_kind(ctx, par.ann) if par is not None else None)
+                continue
+            dn = g.nodes[d]
+            st = dn.ast
+            if dn.kind == "stmt" and isinstance(st, ast.Assign) and len(st.targets) == 1:
+                tg = st.targets[0]
+                if isinstance(tg, ast.Name) and tg.id == e.id:
+                    k = _ann_kind(ctx, getattr(st, "_ann", None)) or _expr_kind(ctx, f, st.value, d, depth + 1)
+                    ks.append(k)
+                    continue
+                if isinstance(tg, (ast.Tuple, ast.List)):
+                    idx = next((i for i, t in enumerate(tg.elts) if isinstance(t, ast.Name) and t.id == e.id), None)
+                    vk = _expr_kind(ctx, f, st.value, d, depth + 1)
+                    if idx is not None and vk and vk[0] == "tuple" and idx < len(vk[1]):
+                        ks.append(vk[1][idx])
+                        continue
+                    if idx is not None and vk and vk[0] == "rec" and idx < len(vk[2]):
+                        ks.append(_ann_kind(ctx, vk[2][idx][1]))
+                        continue
+            ks.append(None)
+        return _join_kinds(ks)
+    return None
+
+
+def _join_kinds(ks):  # type: ignore[no-untyped-def]
+    real = [k for k in ks if k is not None and k[0] != "none"]
+    if not real or any(k is None for k in ks):
+        return ("none",) if ks and all(k is not None and k[0] == "none" for k in ks) else None
+    if all(k[0] == "num" for k in real):
+        return ("num",)
+    if all(k[0] == "tuple" for k in real) and len({len(k[1]) for k in real}) == 1:
+        n = len(real[0][1])
+        nones = [k for k in ks if k is not None and k[0] == "none"]
+        cols = []
+        for i in range(n):
+            cols.append(_join_kinds([k[1][i] for k in real] + [("none",)] * len(nones)))
+        return ("tuple", cols)
+    if all(k[0] == "rec" for k in real) and len({k[1].qname for k in real}) == 1:
+        return real[0]
+    if all(k[0] in ("rec", "tuple") for k in real):
+        # a record OR a plain tuple of the same width (`hint() or (None, None)`): position-wise
+        widths = {len(k[1]) if k[0] == "tuple" else len(k[2]) for k in real}
+        if len(widths) == 1:
+            n = widths.pop()
+            cols = []
+            for i in range(n):
+                col = []
+                for k in real:
+                    col.append(k[1][i] if k[0] == "tuple" else _ann_kind_of_field(k, i))
+                cols.append(_join_kinds(col))
+            return ("tuple", cols)
+    return None
+
+
+def _ann_kind_of_field(k, i):  # type: ignore[no-untyped-def]
+    ann = k[2][i][1]
+    d = (dotted(ann) or "").split(".")[-1] if not isinstance(ann, ast.Subscript) else ""
+    if d in _NUM_NAMES:
+        return ("num",)
+    if isinstance(ann, ast.Subscript) and (dotted(ann.value) or "").split(".")[-1] == "Optional" and (dotted(ann.slice) or "") in _NUM_NAMES:
+        return ("num",)
+    return None
+
+
+def numbers_not_truth_tested(ctx: Ctx, rid: str, modules: Tuple[str, ...], what: str) -> None:
+    ctx.rule(rid, f"zero is a value, not an absence ({what}): a number (by annotation: int / float / Optional of those, a numeric "
+             "field of a NamedTuple / dataclass, an element of an annotated tuple result, int(..) / float(..)) is never used as a "
+             "truth value - `if version and ..`, `timeout or DEFAULT`, `not seq` treat a legitimate 0 (version 0, timeout 0, "
+             "grace 0, sequence 0) like None", 1)
+    n_seen = 0
+    for f in sorted(ctx.prog.functions.values(), key=lambda x: x.qname):
+        if isinstance(f.node, ast.Lambda) or f.module.short not in modules:
+            continue
+        g = ctx.cfg(f)
+        reach = g.reachable()
+        bad = []
+        seen_here = 0
+        for n in g.nodes:
+            if n.ast is None or n.id not in reach or n.kind not in ("stmt", "branch", "return", "call"):
+                continue
+            roots = [n.ast] if n.kind != "stmt" or not isinstance(n.ast, (ast.If, ast.While, ast.For, ast.With, ast.Try, ast.FunctionDef, ast.ClassDef)) else []
+            for root in roots:
+                tests = []
+                if n.kind == "branch":
+                    tests.append(root)
+                for x in ast.walk(root):
+                    if isinstance(x, ast.BoolOp):
+                        tests += x.values[:-1] if isinstance(x.op, ast.Or) and n.kind != "branch" else x.values
+                    elif isinstance(x, ast.UnaryOp) and isinstance(x.op, ast.Not):
+                        tests.append(x.operand)
+                    elif isinstance(x, ast.IfExp):
+                        tests.append(x.test)
+                    elif isinstance(x, ast.comprehension):
+                        tests += x.ifs
+                for t in tests:
+                    if not isinstance(t, (ast.Name, ast.Attribute, ast.Subscript)):
+                        continue
+                    k = _expr_kind(ctx, f, t, n.id)
+                    if k is not None and k[0] == "num":
+                        seen_here += 1
+                        key = (ctx.prog.anchor(f), norm_text(t))
+                        if key in FALSY_ZERO_EXCEPTIONS:
+                            continue
+                        bad.append((n, norm_text(t)))
+        n_seen += 1
+        for n, txt in bad:
+            ctx.ob(rid, f, "a number is compared, never truth-tested", n, False,
+                   f"`{txt}` is a number (by annotation) used as a truth value in `{n.text[:70]}`: 0 is taken for 'absent'", text=txt)
+        if not bad:
+            ctx.ob(rid, f, "a number is compared, never truth-tested", None, True, "no numeric value is used as a truth value",
+                   nontrivial=False, text="*")
+    if n_seen == 0:
+        raise AnalysisError(f"numbers_not_truth_tested: no function analysed in {modules}")
+
+
+def module_const_value(ctx: Ctx, mod, e: Optional[ast.AST], depth: int = 0) -> Optional[object]:
+    """A module-level constant expression as a str / int / float, or None: literals, other module constants, `+`, `%`-formatting,
+    `.format(...)`, f-strings and str(..) over such values, and whatever module_const_number evaluates.  Nothing is executed."""
+    if e is None or depth > 8:
+        return None
+    ev = lambda x: module_const_value(ctx, mod, x, depth + 1)  # noqa: E731
+    if isinstance(e, ast.Constant):
+        return e.value if isinstance(e.value, (str, int, float)) and not isinstance(e.value, bool) else None
+    if isinstance(e, ast.Name):
+        return ev(mod.consts[e.id]) if e.id in mod.consts else None
+    if isinstance(e, ast.JoinedStr):
+        out = []
+        for part in e.values:
+            if isinstance(part, ast.Constant):
+                out.append(str(part.value))
+            elif isinstance(part, ast.FormattedValue) and part.format_spec is None and part.conversion == -1:
+                v = ev(part.value)
+                if v is None:
+                    return None
+                out.append(str(v))
+            else:
+                return None
+        return "".join(out)
+    if isinstance(e, ast.BinOp) and isinstance(e.op, (ast.Add, ast.Mod)):
+        l = ev(e.left)
+        if isinstance(l, str):
+            if isinstance(e.op, ast.Add):
+                r = ev(e.right)
+                return l + r if isinstance(r, str) else None
+            args = [ev(x) for x in e.right.elts] if isinstance(e.right, ast.Tuple) else [ev(e.right)]
+            if any(a is None for a in args):
+                return None
+            try:
+                return l % (tuple(args) if isinstance(e.right, ast.Tuple) else args[0])
+            except Exception:
+                return None
+    if isinstance(e, ast.Call) and isinstance(e.func, ast.Attribute) and e.func.attr == "format":
+        t = ev(e.func.value)
+        args = [ev(a) for a in e.args]
+        kws = {k.arg: ev(k.value) for k in e.keywords if k.arg}
+        if isinstance(t, str) and all(a is not None for a in args) and all(v is not None for v in kws.values()) and len(kws) == len(e.keywords):
+            try:
+                return t.format(*args, **kws)
+            except Exception:
+                return None
+        return None
+    if isinstance(e, ast.Call) and isinstance(e.func, ast.Name) and e.func.id == "str" and len(e.args) == 1:
+        v = ev(e.args[0])
+        return str(v) if v is not None else None
+    if isinstance(e, ast.Call) and (dotted(e.func) or "") == "re.escape" and len(e.args) == 1 and not e.keywords:
+        v = ev(e.args[0])
+        import re as _re
+        return _re.escape(v) if isinstance(v, str) else None
+    return module_const_number(ctx, mod, e)
